@@ -51,7 +51,7 @@ RULE = (
     "type-diverse existing streams and 3 existing dictionaries, remove key, duplicate key; stream: empty, cut 1/4 1/2 3/4 -1, "
     "8 bit flips, garbage, Length 0/short/long; small LZW/RunLength/ASCII85/ASCIIHex/CCITT payloads: every bit of the first 8 "
     "bytes + one bit of every later byte; token: delete, duplicate, replace by 0 /Name (string) [] <<>>; file: truncation, "
-    "startxref/xref-row damage) x entry points {extract_text, extract_pages, "
+    "startxref/xref-row damage) x entry points {extract_text, extract_pages (run with caching=False: every object fetch re-parses), "
     "extract_text_to_fp(xml)[, nav]}. quick = stride-12 sample of the same enumeration (offset chosen by the seed), except that "
     "the header-bit flips are all run and links redirected to an ancestor are sampled with stride 3. "
     "distinct = distinct damaged files; non-trivial = every case (each differs from its seed by exactly one fault)."
